@@ -1397,11 +1397,15 @@ PAIR_FAMILIES = [
 ]
 
 
-def paired_calls(P, res, label="PAIRED-CALLS"):
+def paired_calls(P, res, label="PAIRED-CALLS", only=None, floor=15, why_override=None):
     """every function that opens a scope closes it exactly once on every path before it opens the next one or returns, and
     closes nothing it did not open. Conditional open/close pairs are accepted when both sit under the same enum arm."""
     n = 0
     for push_fn, pop_fn, why in PAIR_FAMILIES:
+        if only is not None and only not in push_fn:
+            continue
+        why = why_override or why
+
         def matcher(spec):
             if spec.startswith("field:"):
                 _, fld, op = spec.split(":")
@@ -1480,4 +1484,4 @@ def paired_calls(P, res, label="PAIRED-CALLS"):
                 res.bad(label, key + " # unbalanced", "%s: %s (%s)" % (p_, "; ".join(problems), why), f.loc())
             else:
                 res.ok(label, key + ": %d open / %d close, balanced on every path" % (len(pu), len(po)))
-    res.floor(label, "functions that open or close a checked scope", n, 15)
+    res.floor(label, "functions that open or close a checked scope", n, floor)
